@@ -292,7 +292,7 @@ def parse_c_int(s):
         return 1
     if s in ("FALSE", "false"):
         return 0
-    m = re.match(r"^\(?[\w\s]*\)?\s*(-?(?:0x[0-9a-fA-F]+|\d+))[uUlL]*$", s)
+    m = re.match(r"^(?:\([\w\s]*\)\s*)?(-?(?:0x[0-9a-fA-F]+|\d+))[uUlL]*$", s)
     if m:
         return int(m.group(1), 0)
     m = re.match(r"^/\*.*\*/\s*(-?\d+)", s)
